@@ -76,6 +76,24 @@ def resume_probe(rt, fr, k, leaves, exc, got):
         )
 
 
+def peek_probe(rt, *_a):
+    """Somebody looks at the pending batches (logging, state queries): looking must not change anything."""
+    from asynq.batching import BatchBase
+
+    for b in rt.batches:
+        if b.is_computed():
+            continue
+        calls = b.flush_calls
+        try:
+            q = (b.is_cancelled(), b.is_flushed(), b.is_empty(), BatchBase.__str__(b))
+        except BaseException as e:
+            rt.violation("state-query-on-a-pending-batch-raised", {"batch": b.bid, "exc": exc_desc(e)})
+            continue
+        rt.n_peeks = getattr(rt, "n_peeks", 0) + 1
+        if b.is_computed() or b.flush_calls != calls or q[0] or q[1]:
+            rt.violation("state-query-changed-a-pending-batch", {"batch": b.bid, "is_cancelled": q[0], "is_flushed": q[1], "computed_now": b.is_computed(), "flush_body_ran": b.flush_calls != calls})
+
+
 def step_after_done_probe(rt, fr, k):
     if fr.done:
         rt.violation("ran-after-completion", {"task": fr.path, "step": k})
